@@ -245,6 +245,7 @@ def fresh_backend():
     import shutil
     import tempfile
     from redun.backends.db import RedunBackendDb
+    logging.getLogger("redun").setLevel(logging.CRITICAL)
     if not _TEMPLATE:
         base = "/dev/shm" if os.path.isdir("/dev/shm") and os.access("/dev/shm", os.W_OK) else None
         d = tempfile.mkdtemp(prefix="rv_c21_", dir=base)
@@ -708,35 +709,67 @@ class ProgGen:
         return self.call("sumc", [("c", self.gen_any(depth, True, budget)), ("tag", self.newtag())])
 
 
-def retag(s, rng, keep, shift=500000):
+KEEP_TASK = 0.2
+
+
+def retag(s, rng, keep, shift=500000, keep_task=None):
     """The program of a second run: tags shifted (so the calls are new) except inside the catch
-    expressions chosen to stay unchanged (so that their cached evaluation is replayed)."""
+    expressions chosen to stay unchanged (so that their cached evaluation is replayed) and in some
+    calls left unchanged (cache hits of the backend).  A catch expression that is not chosen always
+    changes (nothing inside it is left unchanged), so it is never replayed by accident."""
+    kt = KEEP_TASK if keep_task is None else keep_task
+    # Equal subtrees get equal treatment (otherwise two structurally different calls could end up with the
+    # same tag, i.e. the same call node, and which of them records it would depend on timing); calls that
+    # also occur inside a catch expression are never left unchanged.
+    in_catch = set()
+
+    def scan(x, inside):
+        if x[0] == "c":
+            return
+        if x[0] == "t" and inside:
+            in_catch.add(json.dumps(x))
+        for y in subterms(x):
+            scan(y, inside or x[0] == "catch")
+
+    scan(s, False)
+    memo = {}
+
+    def go(x):
+        k = x[0]
+        if k == "c":
+            return ["c", x[1] + shift, "tag"] if len(x) == 3 else x
+        key = json.dumps(x)
+        if key in memo:
+            return memo[key]
+        if k == "catch" and rng.random() < keep:
+            out = x
+        elif k in ("L", "cond", "seq"):
+            out = [k, [go(y) for y in x[1]]]
+        elif k == "D":
+            out = [k, [[kk, go(y)] for kk, y in x[1]]]
+        elif k == "t":
+            if rng.random() < kt and key not in in_catch and not has_kind(x, ("catch",)):
+                out = x                   # an unchanged call: a cache hit of the backend in the second run
+            else:
+                out = [k, x[1], [[lab, go(y)] for lab, y in x[2]]]
+        elif k == "op":
+            out = [k, x[1], [go(y) for y in x[2]]]
+        elif k == "catch":
+            out = [k, go(x[1]), x[2], x[3]]
+        else:
+            raise AssertionError(x)
+        memo[key] = out
+        return out
+
+    return go(s)
+
+
+def subterms(s):
     k = s[0]
     if k == "c":
-        return ["c", s[1] + shift, "tag"] if len(s) == 3 else s
-    if k == "catch" and rng.random() < keep:
-        return s
-    if k in ("L", "cond", "seq"):
-        return [k, [retag(x, rng, keep, shift) for x in s[1]]]
-    if k == "D":
-        return [k, [[key, retag(x, rng, keep, shift)] for key, x in s[1]]]
-    if k == "t":
-        return [k, s[1], [[lab, retag(x, rng, keep, shift)] for lab, x in s[2]]]
-    if k == "op":
-        return [k, s[1], [retag(x, rng, keep, shift) for x in s[2]]]
-    if k == "catch":
-        return [k, retag(s[1], rng, keep, shift), s[2], s[3]]
-    raise AssertionError(s)
-
-
-def retag_all(s, shift):
-    import random
-    return retag(s, random.Random(0), -1.0, shift)
-
-
-def unjson(s):
-    """JSON round trip turns label pairs into lists already; nothing else to restore."""
-    return s
+        return []
+    return ([x for x in s[1]] if k in ("L", "cond", "seq") else [x for _, x in s[1]] if k == "D"
+            else [x for _, x in s[2]] if k == "t" else s[2] if k == "op" else [s[1]])
 
 
 # fixed witnesses -----------------------------------------------------------------------------------
@@ -841,8 +874,8 @@ def check_history(programs, classify=None):
 class Check(PropertyCheck):
     id = "C21"
     module = "Props.C21"
-    theorems = ["C21_args_recorded", "C21_recorded_calls_args", "C21_upstream_refuted_dup", "C21_upstream_refuted_cached",
-                "C21_upstream_complete_fixed", "C21_values_fixed", "C21_nonvacuous"]
+    theorems = ["C21_args_recorded", "C21_upstream_complete_fixed", "C21_values_fixed", "C21_upstream_refuted_dup",
+                "C21_upstream_refuted_cached", "C21_sites_separate", "C21_nonvacuous"]
     extra_modules = []
     allowed_axioms = []
     section_premises = []
@@ -928,7 +961,7 @@ class Check(PropertyCheck):
     def correspond(self):
         info = getattr(self, "info", {"variant": "shipped", "copy_sched": False, "derive_cached": False})
         free = info["copy_sched"] and info["derive_cached"]
-        n = 140 if self.tier == "quick" else 3000
+        n = 100 if self.tier == "quick" else 3000
         cases = [witness_dup("cond"), witness_dup("seq"), witness_dup("catch"), witness_replay("main"),
                  witness_replay("recover")]
         corpus = CORPUS / "C21.jsonl"
@@ -998,7 +1031,7 @@ class Check(PropertyCheck):
             ps = [p1]
             if info["derive_cached"] and self.rng.random() < 0.5:
                 ps.append(retag(p1, self.rng, 0.7))
-            elif self.rng.random() < 0.3:
+            elif self.rng.random() < 0.6:
                 ps.append(retag(p1, self.rng, -1.0))
             histories.append(("random", ps))
         nf = 0
